@@ -751,10 +751,17 @@ async def drive_raop(ops, streaming, front=None):
 
         def answer():
             if dev["answer"] is not None:
-                dev["vol"] = dev["sent"] if dev["answer"] == "echo" else unhex(dev["answer"])
-                dev["reported"] = dev["vol"]
+                # the command is acknowledged at once; the device changes its level and notifies a
+                # little (20 ms, virtual) later
+                new = dev["sent"] if dev["answer"] == "echo" else unhex(dev["answer"])
+                dev["reported"] = new
                 dev["answer"] = None
-                loop.call_soon(device_event)
+
+                def later():
+                    dev["vol"] = new
+                    device_event()
+
+                loop.call_later(0.02, later)
 
         class FakeApi:
             def listen_to(self, name, func):
@@ -804,7 +811,7 @@ async def drive_raop(ops, streaming, front=None):
             await real_front_set(level)
 
         fp.set_volume = spy_front_set
-    mops, mout = [], []
+    mops, mout, minfos = [], [], []
 
     async def run_front(op):
         """One op of the cross-protocol mode; appends to mops / mout."""
@@ -848,7 +855,9 @@ async def drive_raop(ops, streaming, front=None):
             rec(("exc", exn_name(ex)))
         dev["answer"] = None
         evs = [e for e in cur]
+        before_settle = None if front != "companion" else fhex(fp._volume)
         phase["p"] = "op"
+        await asyncio.sleep(0.2)          # virtual time: every delayed device notification has arrived
         for _ in range(6):
             await asyncio.sleep(0)
         if front == "mrp":
@@ -863,11 +872,16 @@ async def drive_raop(ops, streaming, front=None):
             return
         mops.append({"dreport": ["report", op[1] if k == "dreport" else None]}.get(k, [k] + ([op[1]] if k in ("set", "stream") else [])))
         mout.append(evs)
+        minfos.append({"at_return": before_settle, "settled": fhex(fp._volume),
+                       "confirmed": None if dev["reported"] is None else fhex(dev["reported"])}
+                      if k in ("set", "up", "down") else None)
         if dev["reported"] is not None:       # the device's answer to the request
             mops.append(["report", fhex(dev["reported"])])
             mout.append([])
+            minfos.append(None)
         mops.append(["pump"])
         mout.append(list(pumped))
+        minfos.append(None)
     saved = (raop_mod.open_source, raop_mod.extract_credentials)
     raop_mod.open_source = fake_open_source
     raop_mod.extract_credentials = lambda service: None
@@ -876,7 +890,7 @@ async def drive_raop(ops, streaming, front=None):
         if front:
             for op in ops:
                 await run_front(op)
-            return mops, mout
+            return (mops, mout, minfos) if front == "companion" else (mops, mout)
         for op in ops:
             del cur[:]
             phase["p"] = "op"
@@ -1230,7 +1244,7 @@ def judge_raop(ops, events):
     return errs
 
 
-def judge_cross(mops, events):
+def judge_cross(mops, events, infos=None):
     """facade + CompanionAudio + RaopAudio on one dispatcher (model-op vocabulary of drive_raop front mode)."""
     errs = []
     last_pct = 0.0           # percent level the device last reported (fraction * 100)
@@ -1239,9 +1253,23 @@ def judge_cross(mops, events):
     nan_state = False
     cexpected = None         # level the user set and the device confirmed
     prev = None
-    for op, evs in zip(mops, events):
+    infos = infos or [None] * len(mops)
+    for op, evs, info in zip(mops, events, infos):
         kind = op[0]
-        fw = [unhex(e[1]) for e in evs if e[0] == "fwd"]
+        if info is not None and info["confirmed"] is not None and not any(e[0] == "exc" for e in evs):
+            # set a level / step, read it back: the moment the call returns, audio.volume is the level the
+            # device confirmed for THIS request - not the one it had before
+            at_ret, settled, conf = unhex(info["at_return"]), unhex(info["settled"]), unhex(info["confirmed"]) * 100.0
+            name = "set_volume(%s)" % unhex(op[1]) if kind == "set" else "volume_" + kind
+            if kind == "set" and in_range(unhex(op[1])) and abs(conf - unhex(op[1])) <= TINY and not (
+                    at_ret == at_ret and abs(at_ret - unhex(op[1])) <= TINY):
+                errs.append(("C20:roundtrip:deviation",
+                             "%s: the device confirmed the level, but when the call returned audio.volume was %r "
+                             "(after all messages %r)" % (name, at_ret, settled)))
+            elif not same(at_ret, settled):
+                errs.append(("C20:roundtrip:stale-after-return",
+                             "%s returned with audio.volume %r before the device's confirmation was taken in (then %r)"
+                             % (name, at_ret, settled)))
         dv = [unhex(e[1]) for e in evs if e[0] == "dev"]
         ex = [e[1] for e in evs if e[0] == "exc"]
         rt = [unhex(e[1]) for e in evs if e[0] == "ret"]
@@ -1760,12 +1788,13 @@ def run_case(case):
              "at_return": [None if (i is None or "before" not in i) else [i["before"], i["at_return"], i["settled"]] for i in infos]}
     if k == "cross":
         front = case["front"]
-        mops, ev = vloop.run(drive_raop, case["ops"], bool(case.get("streaming", False)), front)
+        res = vloop.run(drive_raop, case["ops"], bool(case.get("streaming", False)), front)
+        mops, ev = res[0], res[1]
         if front == "mrp":
             errs = judge_raop(mops, ev)
             term = "CRaop %s %s" % (common.clist([crop(o) for o in mops]), cobs(ev))
         else:
-            errs = judge_cross(mops, ev)
+            errs = judge_cross(mops, ev, res[2])
             term = "CCross %s %s" % (common.clist([cxop(o) for o in mops]), cobs(ev))
         nontriv = any(e[0] in ("fwd", "ret", "dev") for evs in ev for e in evs)
         return errs, [term], ("cross", front, case.get("streaming", False), json.dumps(case["ops"])), nontriv, \
@@ -1948,6 +1977,13 @@ def run(ctx):
         add({"kind": "cross", "front": "companion", "streaming": False, "ops": [
             ["set", fhex(lv), "echo"], ["read"], ["stream", fhex(-20.0)], ["read"], ["up", fhex(min(lv / 100.0 + 0.05, 1.0))],
             ["read"], ["stream", None]]}, "cross")
+    # unsolicited device notifications (nobody waiting) BEFORE set / step: the call must still wait
+    # for the confirmation of its own request
+    for lv in boundary_levels() + [rng.uniform(0.0, 100.0) for _ in range(6 * scale)]:
+        add({"kind": "cross", "front": "companion", "streaming": False, "ops": [
+            ["dreport", fhex(0.1)], ["set", fhex(lv), "echo"], ["read"], ["dreport", fhex(0.2)],
+            ["up", fhex(0.25)], ["read"], ["novol"], ["down", fhex(0.15)], ["read"],
+            ["dreport", fhex(0.6)], ["dreport", fhex(0.7)], ["set", fhex(lv), "echo"], ["read"]]}, "cross")
     for i in range(120 * scale):
         hostile = i % 4 == 3
         ops = []
